@@ -226,6 +226,7 @@ func (c *c06) guarded(name string, inLen int, f func()) {
 	w.opFacts = map[string]string{"entry": name, "fault": faultClass(c.fault), "last_byte": c.lastByte, "in_place": c.place, "literal_near_end": c.litNearEnd}
 	var before runtime.MemStats
 	runtime.ReadMemStats(&before)
+	tapeCap0 := cap(w.T.Rec)
 	steps0 := w.World.Steps
 	w.World.StepLimit = steps0 + uint64(400*inLen) + 20000
 	func() {
@@ -247,6 +248,14 @@ func (c *c06) guarded(name string, inLen int, f func()) {
 	var after runtime.MemStats
 	runtime.ReadMemStats(&after)
 	alloc := after.TotalAlloc - before.TotalAlloc
+	if c1 := cap(w.T.Rec); c1 != tapeCap0 {
+		// the simulator's own tape recording grew during the call: not the library's allocation
+		if g := uint64(c1) * 8; g < alloc {
+			alloc -= g
+		} else {
+			alloc = 0
+		}
+	}
 	if limit := uint64(256*inLen) + 1<<20; alloc > limit {
 		w.Failf("alloc-bomb@"+name, w.opFacts, "entry point %s allocated %d bytes for a %d-byte input (fault %s); budget 256*len+1MiB = %d", name, alloc, inLen, c.fault, limit)
 	}
@@ -281,7 +290,7 @@ func runC06(w *W) {
 	var ms []mark
 	msg := encodeThriftMarks(nil, val, &ms)
 	js := (&jsonStyle{t: t, WS: t.Intn(3, "js.ws"), Esc: t.Intn(3, "js.esc"), Num: t.Intn(2, "js.num")}).render(val)
-	w.Logf("IDL:\n%s\nflavour %s\nmsg %d bytes: %x\njson: %s", sch.IDL, flavour, len(msg), clipb(msg, 300), clip(js, 300))
+	w.Logf("IDL:\n%s\nflavour %s\nmsg %d bytes: %x\njson: %s", sch.IDL, flavour, len(msg), clipb(msg, 1000), clip(js, 300))
 	gopts := &generic.Options{UseNativeSkip: t.Chance(1, 2, "opt.nativeskip"), StoreChildrenById: t.Chance(1, 3, "opt.byid"), StoreChildrenByHash: t.Chance(1, 3, "opt.byhash"), DisallowUnknow: t.Chance(1, 4, "opt.du")}
 	copts := conv.Options{DisallowUnknownField: gopts.DisallowUnknow, WriteDefaultField: t.Chance(1, 3, "opt.wd"), UseNativeSkip: gopts.UseNativeSkip}
 	tc := t2j.NewBinaryConv(copts)
@@ -419,6 +428,71 @@ func runC06(w *W) {
 			}
 		}
 	}
+	if currentTier == "thorough" && len(msg) <= 400 {
+		c.sweep(msg, ms, gopts, &tc, ctx)
+	}
 	w.Sig(fmt.Sprintf("faults%d/%s", nfaults, flavour))
 	w.sample = map[string]interface{}{"msg_bytes": len(msg), "faults": nfaults, "last_fault": c.fault}
+}
+
+// sweep enumerates, for this world's message, EVERY truncation offset and EVERY structural mark x
+// boundary value, and feeds each damaged message to a fixed set of entry points (thorough tier).
+func (c *c06) sweep(msg []byte, ms []mark, gopts *generic.Options, tc *t2j.BinaryConv, ctx context.Context) {
+	w := c.w
+	run := func(bad []byte, how string) {
+		c.fault = how
+		in := w.AllocData(bad, simrt.PlaceGuardEnd)
+		c.lastByte, c.place, c.litNearEnd = "binary", "guard_end", "false"
+		b := in.B
+		c.guarded("Node.Children", len(b), func() {
+			var out []generic.PathNode
+			generic.NewNode(thrift.Type(c.rootT.Kind), b).Children(&out, true, gopts)
+		})
+		c.guarded("t2j.Do", len(b), func() { tc.Do(ctx, c.desc, b) })
+		c.guarded("SkipGo", len(b), func() {
+			p := thrift.BinaryProtocol{Buf: b}
+			p.SkipGo(thrift.Type(c.rootT.Kind), thrift.MaxSkipDepth)
+		})
+		c.guarded("SkipNative", len(b), func() {
+			p := thrift.BinaryProtocol{Buf: b}
+			p.SkipNative(thrift.Type(c.rootT.Kind), thrift.MaxSkipDepth)
+		})
+		c.guarded("Value.MarshalTo", len(b), func() { generic.NewValue(c.desc, b).MarshalTo(c.desc2, gopts) })
+		in.Free()
+		w.Count("sweep_faults")
+	}
+	for cut := 0; cut < len(msg); cut++ {
+		run(msg[:cut], fmt.Sprintf("truncate@%d", cut))
+	}
+	for _, m := range ms {
+		switch m.Kind {
+		case 'N', 'L':
+			for _, v := range hugeCounts {
+				b := append([]byte{}, msg...)
+				binary.BigEndian.PutUint32(b[m.Off:], v)
+				run(b, fmt.Sprintf("%c@%d=%#x", m.Kind, m.Off, v))
+			}
+			for d := uint32(1); d <= 2; d++ {
+				b := append([]byte{}, msg...)
+				binary.BigEndian.PutUint32(b[m.Off:], binary.BigEndian.Uint32(b[m.Off:])+d)
+				run(b, fmt.Sprintf("%c@%d+%d", m.Kind, m.Off, d))
+			}
+		case 'T', 'S':
+			for _, v := range typeSubst {
+				if msg[m.Off] == v {
+					continue
+				}
+				b := append([]byte{}, msg...)
+				b[m.Off] = v
+				run(b, fmt.Sprintf("type@%d=%d", m.Off, v))
+			}
+		case 'I':
+			for _, v := range []uint16{0, 0x7fff, 0x8000, 0xffff} {
+				b := append([]byte{}, msg...)
+				binary.BigEndian.PutUint16(b[m.Off:], v)
+				run(b, fmt.Sprintf("id@%d=%#x", m.Off, v))
+			}
+		}
+	}
+	w.Count("sweep_messages")
 }
